@@ -72,11 +72,11 @@ theorem isDir_mkdirs (v : Variant) : ∀ (l : List Path) (s : St),
     simp [step, Fs.step, scratchStep]
 
 /-- closed form of the repaired `_write_file` skeleton -/
-theorem setOps_fixed (b : Nat) (s : St) (k : Path) (val : Bytes) :
-    setOps .strict skFixed true b s k val =
+theorem setOps_fixed (rl : Option Nat) (b : Nat) (s : St) (k : Path) (val : Bytes) :
+    setOps .strict (skFixedOf rl) true b s k val =
       [.begin k val] ++ mkdirOps s.fs k ++ [.creatTrunc k] ++ writeOps k val ++
-      [.fsyncFile k, .close k] ++ (newParents s.fs k).map Op.fsyncDir ++ [.ret] := by
-  simp only [setOps, skFixed, List.foldl_cons, List.foldl_nil, skStep, SkSt.emit, Bool.not_true, Bool.false_or,
+      [.fsyncFile k, .close k] ++ (newParents rl s.fs k).map Op.fsyncDir ++ [.ret] := by
+  simp only [setOps, skFixedOf, List.foldl_cons, List.foldl_nil, skStep, SkSt.emit, Bool.not_true, Bool.false_or,
     if_true, List.nil_append, mkdirOps, writeOps]
   by_cases hfit : val.length ≤ b
   · by_cases he : val = []
@@ -269,10 +269,10 @@ structure Quiet (K : List Path) (s : St) : Prop where
   filesKeys : ∀ f ∈ names s.fs.vfiles, f ∈ K
   scratch : s.scratch = []
 
-theorem set_ok (b : Nat) (K : List Path) (s : St) (k : Path) (val : Bytes)
+theorem set_ok (rl : Option Nat) (b : Nat) (K : List Path) (s : St) (k : Path) (val : Bytes)
     (hv : ValidKeys K) (hk : k ∈ K) (hq : Quiet K s) :
-    okRun .strict s (setOps .strict skFixed true b s k val) = true ∧
-    Quiet K (run .strict s (setOps .strict skFixed true b s k val)) := by
+    okRun .strict s (setOps .strict (skFixedOf rl) true b s k val) = true ∧
+    Quiet K (run .strict s (setOps .strict (skFixedOf rl) true b s k val)) := by
   rw [setOps_fixed]
   have hkne := (hv k hk).1
   have hself : k ∉ ancestors k := (hv k hk).2 k hk
@@ -351,7 +351,7 @@ theorem set_ok (b : Nat) (K : List Path) (s : St) (k : Path) (val : Bytes)
     rcases hVsub f hf with e | e
     · exact Or.inl e
     · rw [c3vf] at e; exact mem_names_setKV_fwd _ _ _ _ e
-  let NP := newParents s.fs k
+  let NP := newParents rl s.fs k
   have hNPmem : ∀ x, (x = k ∧ s.fs.isFile k = false) ∨ (x ∈ ancestors k ∧ s.fs.isDir x = false) → parent x ∈ NP := by
     intro x hx
     simp only [NP, newParents, List.mem_map]
@@ -394,7 +394,7 @@ theorem set_ok (b : Nat) (K : List Path) (s : St) (k : Path) (val : Bytes)
       · have : a ∈ M := by simp [M, ha, h]
         simp [h5vd, this]
   have hlist : [Op.begin k val] ++ mkdirOps s.fs k ++ [.creatTrunc k] ++ writeOps k val ++
-      [.fsyncFile k, .close k] ++ (newParents s.fs k).map Op.fsyncDir ++ [.ret] =
+      [.fsyncFile k, .close k] ++ (newParents rl s.fs k).map Op.fsyncDir ++ [.ret] =
       [Op.begin k val] ++ (mkdirOps s.fs k ++ ([.creatTrunc k] ++ ((writeOps k val ++ [.fsyncFile k, .close k]) ++
         (NP.map Op.fsyncDir ++ [.ret])))) := by simp [NP, List.append_assoc]
   rw [hlist]
@@ -431,24 +431,24 @@ theorem quiet_init (K : List Path) : Quiet K init := by
 
 /-- every set of a valid key sequence, written by the repaired `_write_file`, is well-formed and
     leaves the store quiet again -/
-theorem traceOf_fixed_ok (b : Nat) (K : List Path) (hv : ValidKeys K) :
+theorem traceOf_fixed_ok (rl : Option Nat) (b : Nat) (K : List Path) (hv : ValidKeys K) :
     ∀ (sets : List (Path × Bytes)) (s : St), (∀ kv ∈ sets, kv.1 ∈ K) → Quiet K s →
-      okRun .strict s (traceOf .strict skFixed true b s sets) = true := by
+      okRun .strict s (traceOf .strict (skFixedOf rl) true b s sets) = true := by
   intro sets
   induction sets with
   | nil => intro _ _ _; rfl
   | cons kv rest ih =>
     intro s hk hq
     obtain ⟨k, val⟩ := kv
-    have h := set_ok b K s k val hv (hk (k, val) List.mem_cons_self) hq
+    have h := set_ok rl b K s k val hv (hk (k, val) List.mem_cons_self) hq
     simp only [traceOf, okRun_append, h.1, Bool.true_and]
     exact ih _ (fun kv' h' => hk kv' (List.mem_cons_of_mem _ h')) h.2
 
 /-- **The repaired write path is well-formed for every sequence of sets** (strict variant): any
     number of sets, any values, any io buffer size, keys not path prefixes of each other. -/
-theorem fixed_write_path_wf (b : Nat) (sets : List (Path × Bytes)) (hv : ValidKeys (sets.map (·.1))) :
-    WF .strict (traceOf .strict skFixed true b init sets) = true := by
-  have := traceOf_fixed_ok b _ hv sets init (fun kv h => List.mem_map.mpr ⟨kv, h, rfl⟩) (quiet_init _)
+theorem fixed_write_path_wf (rl : Option Nat) (b : Nat) (sets : List (Path × Bytes)) (hv : ValidKeys (sets.map (·.1))) :
+    WF .strict (traceOf .strict (skFixedOf rl) true b init sets) = true := by
+  have := traceOf_fixed_ok rl b _ hv sets init (fun kv h => List.mem_map.mpr ⟨kv, h, rfl⟩) (quiet_init _)
   simp [WF, runWF_eq, this]
 
 /-! ### the in-place write path has no scratch files -/
@@ -525,13 +525,13 @@ theorem inPlace_neutral : ∀ (l r : List Op) (c : Option Path), l.all neutral =
       | exact ih r c h.2
       | exact absurd h.1 (by simp)
 
-theorem inPlace_setOps_fixed (b : Nat) (s : St) (k : Path) (val : Bytes) (rest : List Op) (c : Option Path) :
-    inPlace c (setOps .strict skFixed true b s k val ++ rest) = inPlace none rest := by
+theorem inPlace_setOps_fixed (rl : Option Nat) (b : Nat) (s : St) (k : Path) (val : Bytes) (rest : List Op) (c : Option Path) :
+    inPlace c (setOps .strict (skFixedOf rl) true b s k val ++ rest) = inPlace none rest := by
   rw [setOps_fixed]
   have hmk : (mkdirOps s.fs k).all neutral = true := by simp [mkdirOps, List.all_map, neutral]
   have hwr : (writeOps k val).all neutral = true := by
     simp only [writeOps]; split <;> simp [neutral]
-  have hfd : ((newParents s.fs k).map Op.fsyncDir).all neutral = true := by simp [List.all_map, neutral]
+  have hfd : ((newParents rl s.fs k).map Op.fsyncDir).all neutral = true := by simp [List.all_map, neutral]
   simp only [List.append_assoc, List.cons_append, List.nil_append, inPlace]
   rw [inPlace_neutral _ _ _ hmk]
   simp only [inPlace, beq_self_eq_true, Bool.true_and]
@@ -540,8 +540,8 @@ theorem inPlace_setOps_fixed (b : Nat) (s : St) (k : Path) (val : Bytes) (rest :
   rw [inPlace_neutral _ _ _ hfd]
   simp only [inPlace]
 
-theorem inPlace_traceOf_fixed (b : Nat) : ∀ (sets : List (Path × Bytes)) (s : St) (c : Option Path),
-    inPlace c (traceOf .strict skFixed true b s sets) = true := by
+theorem inPlace_traceOf_fixed (rl : Option Nat) (b : Nat) : ∀ (sets : List (Path × Bytes)) (s : St) (c : Option Path),
+    inPlace c (traceOf .strict (skFixedOf rl) true b s sets) = true := by
   intro sets
   induction sets with
   | nil => intro _ _; rfl
@@ -553,9 +553,9 @@ theorem inPlace_traceOf_fixed (b : Nat) : ∀ (sets : List (Path × Bytes)) (s :
     exact ih _ none
 
 /-- no prefix of a trace of the repaired (in-place) write path has scratch files or killed sets -/
-theorem scratchOf_fixed (b : Nat) (sets : List (Path × Bytes)) (pre suf : List Op)
-    (htr : traceOf .strict skFixed true b init sets = pre ++ suf) : scratchOf pre = [] ∧ dirtyOf pre = [] := by
-  have h := inPlace_traceOf_fixed b sets init none
+theorem scratchOf_fixed (rl : Option Nat) (b : Nat) (sets : List (Path × Bytes)) (pre suf : List Op)
+    (htr : traceOf .strict (skFixedOf rl) true b init sets = pre ++ suf) : scratchOf pre = [] ∧ dirtyOf pre = [] := by
+  have h := inPlace_traceOf_fixed rl b sets init none
   rw [htr] at h
   exact ghost_scratch_inPlace pre {} rfl rfl (inPlace_prefix pre suf none h)
 
@@ -563,19 +563,25 @@ theorem scratchOf_fixed (b : Nat) (sets : List (Path × Bytes)) (pre suf : List 
     repaired `_write_file` (any length, values, buffer size; keys prefix-free), every crash
     instant and every crash image under the strict model, every key other than the one being
     written reads its last completed value, or missing if it has none. -/
-theorem kvs_crash_safe (b : Nat) (sets : List (Path × Bytes)) (hv : ValidKeys (sets.map (·.1)))
-    (pre suf : List Op) (htr : traceOf .strict skFixed true b init sets = pre ++ suf) :
+theorem kvs_crash_safe (rl : Option Nat) (b : Nat) (sets : List (Path × Bytes)) (hv : ValidKeys (sets.map (·.1)))
+    (pre suf : List Op) (htr : traceOf .strict (skFixedOf rl) true b init sets = pre ++ suf) :
     ∀ c ∈ crashAfter .strict pre, ∀ k, inProgress pre ≠ some k → recover c k = lastCompleted pre k :=
-  fun c hc k hk => crash_safety_core .strict _ pre suf htr (fixed_write_path_wf b sets hv) c hc k hk
-    (by simp [(scratchOf_fixed b sets pre suf htr).1]) (by simp [(scratchOf_fixed b sets pre suf htr).2])
+  fun c hc k hk => crash_safety_core .strict _ pre suf htr (fixed_write_path_wf rl b sets hv) c hc k hk
+    (by simp [(scratchOf_fixed rl b sets pre suf htr).1]) (by simp [(scratchOf_fixed rl b sets pre suf htr).2])
 
 /-- non-vacuity: the demo sequence (nested key, second key, overwrite) has valid keys, and the
     theorem gives e.g. durability of key 3 in the middle of the overwrite of 1/2 -/
 example : ValidKeys (demoSets.map (·.1)) := by decide
 example : ∀ c ∈ crashAfter .strict (demoFixed.take 18), recover c [3] = some [20] := by
   intro c hc
-  have := kvs_crash_safe 16 demoSets (by decide) (demoFixed.take 18) (demoFixed.drop 18)
-    (by simp [demoFixed]) c hc [3] (by decide)
+  have := kvs_crash_safe none 16 demoSets (by decide) (demoFixed.take 18) (demoFixed.drop 18)
+    (by simp [demoFixed, skFixed]) c hc [3] (by decide)
   rw [this]; decide
+
+/-- the repaired-again write path (whole chain synced, store root = base, i.e. 0 components): a store
+    on a fresh two-level root, well-formed by the general theorem, with more directory fsyncs -/
+example : WF .strict (traceOf .strict (skFixedOf (some 2)) true 16 init [([7, 8, 1], [10]), ([7, 8, 1], [11])]) = true :=
+  fixed_write_path_wf (some 2) 16 _ (by decide)
+example : (traceOf .strict (skFixedOf (some 2)) true 16 init [([7, 8, 1], [10]), ([7, 8, 1], [11])]).length = 19 := by decide
 
 end Klong.C17
